@@ -4,6 +4,7 @@
 package strs
 
 import (
+	"fmt"
 	"strings"
 
 	"pgregory.net/rapid"
@@ -153,3 +154,24 @@ func Split(t *rapid.T, w string, k int) []string {
 
 // HasAny reports whether s contains any byte of set.
 func HasAny(s, set string) bool { return strings.ContainsAny(s, set) }
+
+var namedRef = map[byte]string{'%': "&percnt;", '?': "&quest;", '#': "&num;", '/': "&sol;", ':': "&colon;", '.': "&period;", '\\': "&bsol;", '@': "&commat;", '&': "&amp;", '\t': "&Tab;", '\n': "&NewLine;", '<': "&lt;", '>': "&gt;", '"': "&quot;", '\'': "&apos;", '=': "&equals;", ';': "&semi;", ',': "&comma;", '(': "&lpar;", ')': "&rpar;", '+': "&plus;", '!': "&excl;", '$': "&dollar;", '*': "&ast;", '_': "&lowbar;", '-': "&hyphen;", '{': "&lbrace;", '}': "&rbrace;", '[': "&lbrack;", ']': "&rbrack;", '|': "&vert;", '^': "&Hat;", '`': "&grave;"}
+
+// CharRefSpellings returns the ways c can be written as an HTML character reference
+// (decimal, hex in both cases, zero-padded, named; with and without the semicolon).
+func CharRefSpellings(c byte) []string {
+	out := []string{fmt.Sprintf("&#%d;", c), fmt.Sprintf("&#x%x;", c), fmt.Sprintf("&#X%X;", c), fmt.Sprintf("&#%04d;", c), fmt.Sprintf("&#x%04x;", c), fmt.Sprintf("&#%d", c), fmt.Sprintf("&#x%x", c)}
+	if n, ok := namedRef[c]; ok {
+		out = append(out, n)
+	}
+	return out
+}
+
+// AllCharRefSpellings returns the spellings of every byte of set.
+func AllCharRefSpellings(set string) []string {
+	var out []string
+	for i := 0; i < len(set); i++ {
+		out = append(out, CharRefSpellings(set[i])...)
+	}
+	return out
+}
